@@ -201,6 +201,7 @@ SPECS = {
 """),
  'finalize': ('r: RegTape', """
         ensures r.tape@ == old(self).out.tape@, r.slot_count == old(self).out.slot_count,
+            final(self).out.tape@.len() == 0, final(self).out.slot_count == 0,
 """),
 
  'op_reg': (None, """
